@@ -5,7 +5,11 @@ package run
 import (
 	"errors"
 	"fmt"
+	"runtime"
 	"strings"
+	"sync"
+	"sync/atomic"
+	"time"
 
 	"go.starlark.net/starlark"
 	"go.starlark.net/syntax"
@@ -84,6 +88,37 @@ func postCalls(o *Outcome, thread *starlark.Thread, g starlark.StringDict, tr *h
 
 const MaxSteps = 400000
 
+// A memory watchdog: a generated program can grow a value geometrically within its step budget. When the heap of the test
+// process passes the limit, the execution in progress is ended the way an exhausted step budget ends it (the case is
+// discarded as not comparable, never judged).
+const heapLimit = 6 << 30
+
+var (
+	guardOnce sync.Once
+	curThread atomic.Pointer[starlark.Thread]
+	curInterp atomic.Pointer[ref.Interp]
+)
+
+func startGuard() {
+	guardOnce.Do(func() {
+		go func() {
+			for {
+				time.Sleep(100 * time.Millisecond)
+				var ms runtime.MemStats
+				runtime.ReadMemStats(&ms)
+				if ms.HeapAlloc > heapLimit {
+					if th := curThread.Load(); th != nil {
+						th.Cancel("too many steps (memory guard)")
+					}
+					if in := curInterp.Load(); in != nil {
+						in.Abort.Store(true)
+					}
+				}
+			}
+		}()
+	})
+}
+
 // Impl runs p through ExecFileOptions.
 func Impl(p gen.Program) *Outcome {
 	return ImplWith(p, func(thread *starlark.Thread, pre starlark.StringDict) (starlark.StringDict, error) {
@@ -101,6 +136,9 @@ func ImplWith(p gen.Program, exec func(thread *starlark.Thread, pre starlark.Str
 	thread.Load = func(th *starlark.Thread, module string) (starlark.StringDict, error) {
 		return implLoad(p, tr, cache, module)
 	}
+	startGuard()
+	curThread.Store(thread)
+	defer curThread.Store(nil)
 	g, err := exec(thread, pre)
 	o := &Outcome{Trace: append([]string(nil), tr.Events...), Globals: host.Canon(g), Raw: g, Steps: thread.ExecutionSteps(), Err: err}
 	fillImplError(o, err)
@@ -198,6 +236,9 @@ func Ref(p gen.Program) *Outcome {
 	thread.Load = func(th *starlark.Thread, module string) (starlark.StringDict, error) {
 		return refLoad(in, p, tr, cache, module)
 	}
+	startGuard()
+	curInterp.Store(in)
+	defer curInterp.Store(nil)
 	g, err := in.ExecFile(p.Opts.FileOptions(), "prog.star", p.Src, pre)
 	o := &Outcome{Trace: append([]string(nil), tr.Events...), Globals: host.Canon(g), Raw: g, Err: err}
 	fillRef := func(o *Outcome, err error) {
